@@ -1,7 +1,7 @@
 """C06 - every metafile written is canonical, structurally valid bencoding."""
 import ast
 
-from tfsa.flow import Flow, walk_terms, show
+from tfsa.flow import Flow, walk_terms, walk_values, show
 from tfsa.loader import own_nodes, AnalysisError
 from tfsa.pointsto import inplace_rekey, PointsTo, is_sorted_items_copy, sorted_copy_info, STAR, ELEM
 from tfsa.reach import ReachDefs
@@ -694,6 +694,19 @@ def required_keys(ctx, pt):
             n = C.stmt_node(ctx, init, ins.node)
             if gi.dominates(n, gi.exit) and isinstance(ins.base, ast.Subscript) and const_str(ins.base.slice) == "info":
                 base_keys.add(const_str(ins.key))
+    # a constructor split into steps: stores made on every path of a method that only the constructor calls, on every path
+    for h, site in C.constructor_helpers(ctx, init):
+        if not gi.dominates(C.stmt_node(ctx, init, site), gi.exit):
+            continue
+        gh = C.cfg_of(h)
+        for ins in pt.insertions:
+            if ins.fn is h and ins.how == "store" and const_str(ins.key) and gh.dominates(C.stmt_node(ctx, h, ins.node), gh.exit):
+                base = ins.base
+                if isinstance(base, ast.Name):
+                    bl = ctx.res.bindings(h).get(base.id, [])
+                    base = bl[0][1] if len(bl) == 1 and bl[0][0] == "value" else base
+                if isinstance(base, ast.Subscript) and const_str(base.slice) == "info":
+                    base_keys.add(const_str(ins.key))
     ok = {"name", "piece length"} <= base_keys
     ctx.decide("C06.5", init, ok, "MetaFile.__init__ stores info['name'] and info['piece length'] on every normal path",
                "MetaFile.__init__ does not store %s on every normal path" % sorted({"name", "piece length"} - base_keys),
@@ -814,7 +827,7 @@ def hash_kinds(ctx, pt):
             targets.append(("pieces root", ins.key))
         for name, expr in targets:
             t = flow.term(expr, ins.fn)
-            hs = {x[1] for x in walk_terms(t) if x[0] == "ext" and x[1].startswith("hashlib.")}
+            hs = {x[1] for x in walk_values(t) if x[0] == "ext" and x[1].startswith("hashlib.")}
             cut = any(x[0] == "unknown" and x[1] in ("depth", "wide") for x in walk_terms(t))
             exp = want[name][0]
             n += 1
